@@ -866,14 +866,21 @@ func (e *nmEngine) build(op nmOp) []*nmTx {
 			op.Kind, op.Epoch = nmTick, 0
 			return e.build(op)
 		}
-		// close the block first: the ring position at the moment of the resize
-		// is then observable (coverage accounting only)
-		if len(e.pending) > 0 {
+		// half of the resizes open a block of their own: the ring position at
+		// the moment of the resize is then observable (coverage accounting
+		// only). The others share the block with whatever was collected before
+		// them — a tick and a resize, or two resizes, in one block in this order
+		inBlock := op.Info%2 == 1 && len(e.pending) > 0
+		if len(e.pending) > 0 && !inBlock {
 			e.flush(0, 1)
 		}
 		e.resizes++
 		bt.count = nmCounts[op.Count]
 		bt.ringPos = e.ringPos()
+		if inBlock {
+			bt.ringPos = -98 // not observable in the middle of a block
+			e.r.Count("probe.resize_in_block_after_other_calls")
+		}
 		var sf string
 		bt.signers, sf = AlphaSignerClass(e.w, op.Sig, e.stranger)
 		bt.desc = fmt.Sprintf("updateSnapshotCount(%d)", bt.count)
